@@ -409,7 +409,8 @@ SET_OF__encode_sorted(const asn_TYPE_member_t *elm,
 
         return encoded_els;
     } else {
-        SET_OF__encode_sorted_free(encoded_els, edx);
+        /* The slot of the failed element may hold a partial encoding. */
+        SET_OF__encode_sorted_free(encoded_els, list->count);
         return NULL;
     }
 }
@@ -472,6 +473,7 @@ SET_OF_encode_der(const asn_TYPE_descriptor_t *td, const void *sptr,
      * encoded elements.
      */
     encoded_els = SET_OF__encode_sorted(elm, list, SOES_DER);
+    if(!encoded_els) ASN__ENCODE_FAILED;
 
     /*
      * Report encoded elements to the application.
@@ -1062,6 +1064,7 @@ SET_OF_encode_uper(const asn_TYPE_descriptor_t *td,
      * according to their encodings. Build an array of the encoded elements.
      */
     encoded_els = SET_OF__encode_sorted(elm, list, SOES_CUPER);
+    if(!encoded_els && list->count > 0) ASN__ENCODE_FAILED;
 
     for(encoded_edx = 0; (ssize_t)encoded_edx < list->count;) {
         ssize_t may_encode;
@@ -1073,7 +1076,7 @@ SET_OF_encode_uper(const asn_TYPE_descriptor_t *td,
         } else {
             may_encode =
                 uper_put_length(po, list->count - encoded_edx, &need_eom);
-            if(may_encode < 0) ASN__ENCODE_FAILED;
+            if(may_encode < 0) break;
         }
 
         for(edx = encoded_edx; edx < encoded_edx + may_encode; edx++) {
@@ -1083,9 +1086,10 @@ SET_OF_encode_uper(const asn_TYPE_descriptor_t *td,
                 break;
             }
         }
+        if(edx < encoded_edx + may_encode) break;   /* Output failed */
 
         if(need_eom && uper_put_length(po, 0, 0))
-            ASN__ENCODE_FAILED; /* End of Message length */
+            break; /* End of Message length */
 
         encoded_edx += may_encode;
     }
